@@ -581,3 +581,44 @@ fn c04_static_new_prefills_three_frames_from_start() {
 	kani::cover!(looping && to_end && s1 < KV_N, "w:open-loop-on-slice");
 	std::mem::forget(sound); std::mem::forget(_w);
 }
+
+// ---------------------------------------------------------------------------------------------
+// C01 findings (expected to FAIL exactly as listed in KNOWN_FINDINGS.txt)
+// ---------------------------------------------------------------------------------------------
+// @h prop=C01 tier=quick kind=finding:F5 timeout=280
+// @bounds one callback of one frame at an absurd but finite playback rate (1e18) on a looping sound: the per-frame stepping loop `while fractional_position >= 1.0` must terminate within 8 iterations
+// @funcs StaticSound::process
+// @catches (finding F5) the audio callback not returning: 1e18 - 1.0 == 1e18 in f64, the loop never ends
+#[kani::proof]
+#[kani::unwind(9)]
+fn c01_find_static_huge_rate_loop_unbounded() {
+	let a = KvArenas::empty();
+	let info = a.info();
+	let (mut sound, _w) = kv_sound((0, 4), StaticSoundSettings { playback_rate: Value::Fixed(PlaybackRate(1.0e18)), ..StaticSoundSettings::new().loop_region(Some(kv_region(0, 4, true))) });
+	let mut out = [Frame::ZERO; 1];
+	sound.process(&mut out, 1.0, &info);
+	kani::cover!(true, "w:returned");
+	std::mem::forget(sound); std::mem::forget(_w);
+}
+
+include!(concat!(env!("KV_HARNESS_DIR"), "/lib/libm.rs"));
+// @h prop=C01 tier=quick kind=finding:F6 timeout=280
+// @bounds a silent frame played at a finite but absurd volume (+1000 dB): the amplitude overflows to +inf and inf * 0 is NaN
+// @funcs StaticSound::process, Decibels::as_amplitude
+// @assume powf contract stub (10^50 may be +inf, as it is natively in f32)
+// @catches (finding F6) NaN written to the output for finite arguments
+#[kani::proof]
+#[kani::unwind(6)]
+#[kani::stub(f32::powf, kv_powf32)]
+fn c01_find_huge_volume_on_silence_is_nan() {
+	let a = KvArenas::empty();
+	let info = a.info();
+	let data = StaticSoundData { sample_rate: 1, frames: vec![Frame::ZERO; 4].into(), settings: StaticSoundSettings::new().volume(Decibels(1000.0)), slice: None };
+	let (w, r) = command_writers_and_readers();
+	let mut sound = StaticSound::new(data, r);
+	let mut out = [Frame::ZERO; 1];
+	sound.process(&mut out, 1.0, &info);
+	assert!(!out[0].left.is_nan() && !out[0].right.is_nan(), "every sample written is a finite number");
+	kani::cover!(true, "w:reached");
+	std::mem::forget(sound); std::mem::forget(w);
+}
